@@ -261,7 +261,110 @@ type gateSpec struct {
 	entry         *ssa.Function // function to evaluate for feasibility questions (default fn)
 }
 
+// semanticPredicate classifies helper f(x int) → (…, bool | error) by abstract evaluation on a
+// partition of the integers: every constant occurring in f and the module functions it calls,
+// its neighbours, and the intervals in between.  The result is used only if every class is
+// decided (the helper certainly holds / certainly does not hold on the whole class).
+func (a *Analysis) semanticPredicate(f *ssa.Function, bits int) *predSets {
+	res := f.Signature.Results()
+	if res.Len() == 0 {
+		return nil
+	}
+	last := res.At(res.Len() - 1).Type()
+	isErr := isErrorType(last)
+	if bt, ok := last.Underlying().(*types.Basic); !isErr && (!ok || bt.Kind() != types.Bool) {
+		return nil
+	}
+	for fn := range a.reachableFrom(f) {
+		if a.touchesPackageStateExceptLoads(fn) {
+			return nil
+		}
+	}
+	lo, hi := int64(math.MinInt64), int64(math.MaxInt64)
+	if bits == 32 {
+		lo, hi = math.MinInt32, math.MaxInt32
+	}
+	points := map[int64]bool{lo: true, hi: true, 0: true}
+	for fn := range a.reachableFrom(f) {
+		for _, b := range fn.Blocks {
+			for _, in := range b.Instrs {
+				for _, op := range in.Operands(nil) {
+					if c, ok := intConst(*op); ok && c >= lo && c <= hi {
+						points[c] = true
+						if c > lo {
+							points[c-1] = true
+						}
+						if c < hi {
+							points[c+1] = true
+						}
+					}
+				}
+			}
+		}
+	}
+	if len(points) > 400 {
+		return nil
+	}
+	var ps []int64
+	for p := range points {
+		ps = append(ps, p)
+	}
+	sort.Slice(ps, func(i, j int) bool { return ps[i] < ps[j] })
+	out := &predSets{}
+	classify := func(ctx *Ctx, set ZSet) bool {
+		e := NewEval(a.P, a.G, ctx)
+		rv, _ := e.Run(f)
+		for _, ev := range e.Events {
+			if ev.Status != Discharged && ev.Rule != "" {
+				return false // it may panic or was not fully evaluated on this class
+			}
+		}
+		if len(rv) != res.Len() {
+			return false
+		}
+		v := rv[len(rv)-1]
+		if isErr {
+			ev := asErr(v)
+			switch {
+			case ev.Kind == ekNil:
+				out.F = out.F.Union(set)
+			case ev.Kind == ekFresh || ev.Kind == ekSentinel || ev.Kind == ekWrap || ev.NonNil:
+				out.T = out.T.Union(set)
+			default:
+				return false
+			}
+			return true
+		}
+		bv, ok := v.(BoolV)
+		if !ok || !bv.Known {
+			return false
+		}
+		if bv.Val {
+			out.T = out.T.Union(set)
+		} else {
+			out.F = out.F.Union(set)
+		}
+		return true
+	}
+	for i, p := range ps {
+		p := p
+		if !classify(&Ctx{Name: fmt.Sprintf("pred:%s(%d)", f.Name(), p), WordCount: &p}, ZOf(p)) {
+			return nil
+		}
+		if i+1 < len(ps) && ps[i+1] > p+1 {
+			l, h := p+1, ps[i+1]-1
+			if !classify(&Ctx{Name: fmt.Sprintf("pred:%s[%d..%d]", f.Name(), l, h), SizeKind: "W", SizeRange: &[2]int64{l, h}}, ZRange(l, h)) {
+				return nil
+			}
+		}
+	}
+	return out
+}
+
 func (a *Analysis) ruleGates() {
+	semPredMu.Lock()
+	semPredByProg[a.P.SSA] = a.semanticPredicate
+	semPredMu.Unlock()
 	bits := a.P.Cfg.IntBits()
 	maxInt := int64(math.MaxInt64)
 	minInt := int64(math.MinInt64)
